@@ -343,7 +343,7 @@ class RegistryProperty:
     real = ["nix_manipulator resolution registry, weak references, Identifier.value (real)", "real gc, collections only at scheduled events"]
     stubbed = ["gc timing (automatic collection disabled)", "time: a step budget of traced line events stands for 'bounded time'"]
 
-    def __init__(self, quick_runs=5000, thorough_runs=100000):
+    def __init__(self, quick_runs=8000, thorough_runs=120000):
         self.pid = "C10"
         self.runs = {"quick": quick_runs, "thorough": thorough_runs}
 
